@@ -38,6 +38,13 @@ I_TT, IDX_TT, IDXM_TT = teneva.sample_tt([5, 5, 5], 3, seed=1)
 Y_TT = teneva.get_many(teneva.rand([5, 5, 5], 2, seed=2), I_TT)
 
 
+FD_BIG = teneva.full(tt([20, 18, 20], 3, 7))
+I_TTB, IDX_TTB, IDXM_TTB = teneva.sample_tt([12, 12, 12], 3, seed=1)
+Y_TTB = teneva.get_many(teneva.rand([12, 12, 12], 2, seed=2), I_TTB)
+I_BIG = np.vstack([np.stack([np.arange(20)] * 3, axis=1), teneva.sample_lhs([20, 20, 20], 1500, seed=3)])
+Y_BIGD = teneva.get_many(teneva.rand([20, 20, 20], 2, seed=4), I_BIG)
+
+
 def _f_cross(I):
     return teneva.get_many(tt(), I)
 
@@ -164,6 +171,15 @@ CALLS = {
     'matrix_svd': lambda: (teneva.matrix_svd, (np.random.default_rng(1).normal(size=(5, 4)), 1e-3, 3), {}),
     'matrix_svd_wide': lambda: (teneva.matrix_svd, (np.random.default_rng(1).normal(size=(4, 6)), 1e-3, 3), {}),
     'svd': lambda: (teneva.svd, (Fd.copy(), 1e-3), {}),
+    # large modes with a small rank cap (any "truncated solver for big unfoldings" branch is only reachable here)
+    'matrix_skeleton_big': lambda: (teneva.matrix_skeleton, (np.random.default_rng(1).normal(size=(40, 30)), 1e-3, 2), {}),
+    'matrix_skeleton_big_rel': lambda: (teneva.matrix_skeleton, (np.random.default_rng(2).normal(size=(30, 64)), 1e-3, 3), dict(rel=True, give_to='r')),
+    'matrix_svd_big': lambda: (teneva.matrix_svd, (np.random.default_rng(1).normal(size=(48, 20)), 1e-3, 2), {}),
+    'svd_big_cap': lambda: (teneva.svd, (FD_BIG.copy(), 1e-3, 2), {}),
+    'svd_incomplete_big': lambda: (teneva.svd_incomplete, (I_TTB.copy(), Y_TTB.copy(), IDX_TTB.copy(), IDXM_TTB.copy(), 1e-10, 2), {}),
+    'truncate_svd_big': lambda: (teneva.truncate, (tt((20, 18, 20), 6, 3), 1e-2, 2), dict(is_eigh=False)),
+    'truncate_big': lambda: (teneva.truncate, (tt((20, 18, 20), 6, 3), 1e-2, 2), {}),
+    'als_adapt_big': lambda: (teneva.als, (I_BIG.copy(), Y_BIGD.copy(), teneva.rand([20, 20, 20], 1, seed=9)), dict(nswp=1, info={}, r=2)),
     'svd_matrix': lambda: (teneva.svd_matrix, (np.random.default_rng(1).normal(size=(8, 8)), 1e-3), {}),
     'svd_incomplete': lambda: (teneva.svd_incomplete, (I_TT.copy(), Y_TT.copy(), IDX_TT.copy(), IDXM_TT.copy(), 1e-10, 3), {}),
     'const': lambda: (teneva.const, (np.array([3, 4, 3]), 2., np.array([[0, 1, 2], [1, 1, 1]]), np.array([2, 2, 2])), {}),
